@@ -7,6 +7,12 @@ wrapped in try/except (a failure the formula handles itself).  One element raise
 (ZeroDivisionError, a custom BaseException, None return, recursion limit), optionally another one raises a failure
 that all / some of its callers handle.
 
+Part F repeats the DAG enumeration with the calls wrapped in constructs that evaluate ANOTHER element while the
+callee's exception is still propagating and then let the same exception go on (c05_gen.Inflight: try/finally,
+`except H: ...; raise`, `except H as e: ...; raise e`, a context manager's __exit__); the side element is an earlier
+node of any kind (possibly held already, uncached, failing itself) or a helper cells holding no value yet.  The
+executing chain is unchanged by a side element that completes; a side element that fails replaces the exception.
+
 For every model, every top-level call that fails is made after histories of <= 2 earlier top-level calls of the
 types S (success), H (success that handled a failure inside), U (unhandled failure); after every failing call
 get_traceback() / get_error() are compared with the independent evaluator's chain: nodes, order, last element,
@@ -23,6 +29,8 @@ DEFAULT_LIMIT = mx.get_recursion()
 # labels unwound by exceptions that a formula handled since the executor last built an error stack
 # (kept across cases on purpose: it is the executor's state that matters)
 PENDING = []
+
+COVER = {"inflight": 0}     # failing calls during which a sibling was really evaluated and completed in flight
 
 PATTERNS = [(), ("H",), ("U",), ("S",), ("H", "H"), ("H", "U"), ("U", "H"), ("U", "U"), ("H", "S"), ("S", "H"),
             ("S", "U")]
@@ -76,6 +84,7 @@ class Case17:
         res, sp, rec = self.res, self.spec, self.rec
         held0, deep0, itm = observe(sp, rec)
         sim = Sim(sp, held0, deep0, itm, sp.limit_small)
+        sim.note_held = observe_notes(sp, rec)
         exp = sim.top(q)
         self.hist.append(q)
         pending_before = list(PENDING)
@@ -91,6 +100,7 @@ class Case17:
             return "ok"
         e = exp[1]
         with res.case(key, nontrivial=True):
+            self._sim, self._raised0 = sim, len(rec.ns["RAISED"])
             r = rec.call(sp.top_expr(q))
             rk = sp.nodes[e.origin].kind
             tags = {"exc-" + e.kind, "raiser-" + {"U": "uncached", "V": "uncached", "L": "lambda", "I": "itemspace-cells",
@@ -105,6 +115,13 @@ class Case17:
                 tags.add("handled-in-same-call")
             if "U" in hist_types:
                 tags.add("after-unhandled-failure")
+            for form, evaluated, completed in sim.inflight_evals:
+                # another element was evaluated (not a cache hit) while an exception was propagating
+                if evaluated:
+                    tags.add("sibling-evaluated-in-flight" if completed else "sibling-failed-in-flight")
+                    tags.add("inflight-" + form)
+            if any(ev and done for _f, ev, done in sim.inflight_evals):
+                COVER["inflight"] += 1
             if self.errmode != "handled" and r[0] != "err":
                 res.notes.append("call expected to fail returned %r" % (r,))
                 PENDING += incall
@@ -233,7 +250,17 @@ class Case17:
             ond = sp.nodes[e.origin]
             via_helper = ond.lam or ond.fail.site in ("comp", "gen", "helper")
             raised = self.rec.ns["RAISED"]
-            if err.args != (e.origin,) or (via_helper and err is not raised[-1]):
+            if via_helper and self._sim.boom_raised > 1:
+                # several Boom instances were raised during this call (side elements evaluated in flight, handled
+                # failures): the escaping one is the Sim's e.boom_index-th of them
+                mine = raised[self._raised0:]
+                if len(mine) == self._sim.boom_raised:
+                    wrong = err is not mine[e.boom_index]
+                else:
+                    wrong = not any(err is x for x in mine)
+            else:
+                wrong = via_helper and err is not raised[-1]
+            if err.args != (e.origin,) or wrong:
                 self.fail("chk-get-error", "get_error() is %r, not the exception raised in %s" % (err, sp.label(e.origin)),
                           "sys.exit(1 if mx.get_error().args != (%d,) else 0)" % e.origin, tags)
 
@@ -334,11 +361,57 @@ def part_exhaustive(res, tier):
     return True
 
 
+def case_f(res, item):
+    """Model of case_e (same index-seeded draws) with its calls wrapped in Inflight constructs."""
+    idx, n, mask, deps, p, fkind, form, placement = item
+    reset()
+    rnd = random.Random(idx * 104729 + 7)
+    spec, small, errmode, ph = make_spec(n, deps, p, fkind, rnd)
+    rnd2 = random.Random(idx * 7919 + 31 * Inflight.FORMS.index(form) + (placement == "some"))
+    if not add_inflight(spec, rnd2, form, placement):
+        return                       # no call that can be wrapped: the model of case_e
+    run_model(res, spec, small, errmode, ph, ("F", n, mask, p, fkind, form, placement), rnd)
+
+
+def items_f(tier):
+    idx = 0
+    nf = len(Inflight.FORMS)
+    for n in range(1, 5):
+        for mask, deps in dags(n):
+            for p in range(n):
+                for fkind in MAIN_KINDS:
+                    idx += 1
+                    if not mask:
+                        continue
+                    if tier == "quick":
+                        if n == 4 and idx % 8:
+                            continue
+                        forms = Inflight.FORMS if n == 2 else [Inflight.FORMS[(idx + i) % nf] for i in range(2 if n == 3 else 1)]
+                        for f in forms:
+                            yield (idx, n, mask, deps, p, fkind, f, "all" if (idx // nf) % 2 == 0 else "some")
+                    else:
+                        for f in Inflight.FORMS:
+                            yield (idx, n, mask, deps, p, fkind, f, "all")
+                        yield (idx, n, mask, deps, p, fkind, Inflight.FORMS[idx % nf], "some")
+
+
+def part_inflight(res, tier):
+    if tier != "quick":
+        return run_parallel(res, case_f, items_f(tier), chunk=16, reserve=0.1)
+    for item in items_f(tier):
+        if res.expired():
+            return False
+        case_f(res, item)
+    return True
+
+
 def case_s(res, item):
     k, n, deps, p, fkind, seed = item
     reset()
     rnd = random.Random(seed)
     spec, small, errmode, ph = make_spec(n, deps, p, fkind, rnd, extra=True)
+    if k % 3 == 0:
+        add_inflight(spec, random.Random(seed ^ 0x5A5A), None, "some")
     run_model(res, spec, small, errmode, ph, ("S", k, spec.key()), rnd, max_seq=12)
 
 
@@ -362,21 +435,31 @@ def part_sampled(res, tier):
 def run(res, tier, seed):
     global PENDING
     PENDING = []
+    COVER["inflight"] = 0
     res.bound = ("every DAG on <= 4 elements x every raising element x {ZeroDivisionError, custom BaseException, "
                  "None return, recursion limit} (quick: every 4th combination at 4 elements); for each model every "
                  "failing top-level call after each of 11 history patterns of <= 2 earlier calls of types "
-                 "success / handled failure / unhandled failure; + seeded samples on 4-5 elements (also "
-                 "KeyboardInterrupt)")
+                 "success / handled failure / unhandled failure; the same DAGs (>= 1 call) once more with the calls "
+                 "wrapped in constructs that evaluate another element while the callee's exception propagates "
+                 "{try/finally, except-then-raise, except-as-then-raise-e, context manager __exit__} x {every call, "
+                 "some calls} (quick: 2 elements: 4 constructs, 3 elements: 2 constructs, 4 elements: every 8th "
+                 "combination, 1 construct; thorough: 4 constructs on every call + 1 on some calls); + seeded samples "
+                 "on 4-5 elements (also KeyboardInterrupt; every 3rd with such constructs)")
     res.rule = ("exhaustive product DAG x raising element x exception kind; element kinds (10), call styles (plain, "
                 "list comprehension, generator, lambda, subscript), raise site (statement, comprehension, generator, "
                 "nested def, referenced helper), the element whose failure is handled by its callers, handler classes "
                 "(catching / not catching), cached or uncached recursion helper and the error mode are drawn by an "
-                "index-seeded generator.  One evaluation = one top-level call; non-trivial = the call fails (the "
+                "index-seeded generator; for the in-flight constructs also the side element (an earlier node of any "
+                "kind or a helper cells holding no value yet), its call style and the class caught.  One evaluation = one top-level call; non-trivial = the call fails (the "
                 "traceback contract is evaluated); distinct = distinct (model, call history).")
     ok = part_exhaustive(res, tier)
+    ok2 = part_inflight(res, tier)
     part_sampled(res, tier)
-    res.exhaustive = bool(ok)
+    res.exhaustive = bool(ok and ok2)
     res.notes = res.notes[:20]
+    if tier == "quick":         # (thorough: counted in the worker processes, not merged)
+        res.notes.append("%d of the failing calls evaluated and completed another element while the exception "
+                         "was propagating" % COVER["inflight"])
     res.notes.append("not covered: trace_locals() contents; the text of FormulaError; the line reported for an "
                      "element whose formula returned None (no line is named by the statement)")
     PENDING = []
